@@ -641,16 +641,25 @@ Proof.
   - apply C18_params_lemma, H.
 Qed.
 
-(* ---- reads interleaved with replacements of the query string / body ---- *)
+(* ---- reads, copies and attribute reads interleaved with updates through the item API ---- *)
 
-Definition state_after (st : rstate) (ops : list op) : rstate := fold_left apply_op ops st.
+Definition state_after (ro : bool) (st : rstate) (ops : list op) : rstate := fold_left (apply_op ro) ops st.
 
-Lemma run_ops_app st pre post :
-  run_ops st (pre ++ post) = run_ops st pre ++ run_ops (state_after st pre) post.
+Lemma out_of_some_noop ro st o x : out_of st o = Some x -> apply_op ro st o = st.
+Proof. destruct o, ro; cbn; congruence. Qed.
+
+Lemma run_ops_app ro st pre post :
+  run_ops ro st (pre ++ post) = run_ops ro st pre ++ run_ops ro (state_after ro st pre) post.
 Proof.
   revert st. induction pre as [|o pre IH]; intros st; [reflexivity|].
-  unfold state_after in *. destruct o; cbn [app run_ops fold_left apply_op]; rewrite IH; reflexivity.
+  unfold state_after in *. cbn [app run_ops fold_left].
+  destruct (out_of st o) as [x|] eqn:E.
+  - rewrite (out_of_some_noop ro st o x E). cbn [app]. rewrite IH. reflexivity.
+  - apply IH.
 Qed.
+
+Lemma state_after_readonly st ops : state_after true st ops = st.
+Proof. unfold state_after. induction ops as [|o ops IH]; [reflexivity|]. cbn [fold_left apply_op]. exact IH. Qed.
 
 Definition expected_read (ps1 ps2 : list (str * str)) (a : accessor) : fdict :=
   match a with
@@ -659,29 +668,69 @@ Definition expected_read (ps1 ps2 : list (str * str)) (a : accessor) : fdict :=
   | AParams => dict_update (group ps1) (group ps2)
   end.
 
-Lemma C18_reads_follow_updates_lemma :
-  forall (st : rstate) (pre post : list op) (a : accessor),
-    (* a read returns the decoding of what the request carries at that moment, i.e. of the
-       state reached by the replacements before it — not of anything read or cached earlier *)
-    run_ops st (pre ++ ORead a :: post)
-    = run_ops st pre
-      ++ read_one (fst (state_after st pre)) (snd (state_after st pre)) a
-      :: run_ops (state_after st pre) post
-    (* and when that state is the encoding of pairs, the read is their grouping / merge *)
-    /\ (forall ps1 ps2,
-          (forall k v, In (k, v) (ps1 ++ ps2) -> k <> [] /\ Forall scalar k /\ Forall scalar v) ->
-          state_after st pre = (urlencode ps1, urlencode ps2) ->
-          nth_error (run_ops st (pre ++ ORead a :: post)) (length (run_ops st pre))
-          = Some (QDone (expected_read ps1 ps2 a))).
+Lemma view_of_encoded st ps1 ps2 a :
+  (forall k v, In (k, v) (ps1 ++ ps2) -> k <> [] /\ Forall scalar k /\ Forall scalar v) ->
+  r_qs st = urlencode ps1 -> r_body st = urlencode ps2 -> selects_urlencoded (r_ct st) = true ->
+  view st a = RO (QDone (expected_read ps1 ps2 a)).
 Proof.
-  intros st pre post a.
-  assert (E : run_ops st (pre ++ ORead a :: post)
-              = run_ops st pre ++ read_one (fst (state_after st pre)) (snd (state_after st pre)) a
-                :: run_ops (state_after st pre) post).
-  { rewrite run_ops_app. reflexivity. }
-  split; [exact E|]. intros ps1 ps2 H Hst. rewrite E.
-  rewrite nth_error_app2, Nat.sub_diag by lia. cbn [nth_error]. f_equal.
-  rewrite Hst. cbn [fst snd].
+  intros H Hq Hb Hc. unfold view. rewrite Hq, Hb, Hc.
   pose proof (C18_access_roundtrip_lemma ps1 ps2 [a] H) as R. cbn [read_seq map] in R.
-  injection R as R. rewrite R. destruct a; reflexivity.
+  injection R as R. destruct a; cbn [read_one expected_read] in *; rewrite R; reflexivity.
+Qed.
+
+Lemma C18_reads_follow_updates_lemma :
+  forall (ro : bool) (st : rstate) (pre post : list op) (o : op) (x : rout),
+    (* an observing operation (read / copy / attribute read) returns the view of what the
+       request carries at that moment, i.e. of the state reached by the updates before it *)
+    (out_of (state_after ro st pre) o = Some x ->
+     run_ops ro st (pre ++ o :: post)
+     = run_ops ro st pre ++ x :: run_ops ro (state_after ro st pre) post)
+    (* on a read-only environ nothing ever changes *)
+    /\ state_after true st pre = st
+    (* and when the state is the encoding of pairs under a content type that selects the
+       urlencoded parser, the views are their grouping / merge *)
+    /\ (forall ps1 ps2 a,
+          (forall k v, In (k, v) (ps1 ++ ps2) -> k <> [] /\ Forall scalar k /\ Forall scalar v) ->
+          r_qs (state_after ro st pre) = urlencode ps1 ->
+          r_body (state_after ro st pre) = urlencode ps2 ->
+          selects_urlencoded (r_ct (state_after ro st pre)) = true ->
+          view (state_after ro st pre) a = RO (QDone (expected_read ps1 ps2 a))).
+Proof.
+  intros ro st pre post o x. split; [|split].
+  - intros E. rewrite run_ops_app. cbn [run_ops]. rewrite E. reflexivity.
+  - apply state_after_readonly.
+  - intros ps1 ps2 a H Hq Hb Hc. apply view_of_encoded; assumption.
+Qed.
+
+(* ---- one application object, several requests ---- *)
+Lemma C18_requests_independent_lemma :
+  forall (reqs : list (str * list N)) i,
+    nth_error (serve_all reqs) i
+    = option_map (fun qb => [query (fst qb); forms_urlencoded (snd qb); params (fst qb) (snd qb)])
+                 (nth_error reqs i).
+Proof. intros reqs i. unfold serve_all. apply nth_error_map. Qed.
+
+(* ---- cache_in ---- *)
+Lemma C18_cache_in_lemma :
+  forall (ro gf : bool) (base : Z) (st : cstate),
+    (* a value that was delivered is delivered again without calling the getter *)
+    (forall v st', cache_step ro gf base st CGet = (CVal v, st') ->
+                   cache_step ro gf base st' CGet = (CVal v, st'))
+    (* a failing getter caches nothing *)
+    /\ (forall st', cache_step ro gf base st CGet = (CGetterErr, st') -> c_cached st' = None)
+    (* read_only: assignment and deletion are refused and change nothing *)
+    /\ (ro = true -> forall v, cache_step ro gf base st (CSet v) = (CReadOnly, st)
+                               /\ cache_step ro gf base st CDel = (CReadOnly, st))
+    (* not read_only: after a deletion the next read recomputes *)
+    /\ (ro = false -> forall st', cache_step ro gf base st CDel = (COk, st') -> c_cached st' = None).
+Proof.
+  intros ro gf base st. repeat split.
+  - intros v st'. cbn [cache_step]. destruct (c_cached st) as [w|] eqn:E.
+    + intros [= <- <-]. cbn [cache_step]. rewrite E. reflexivity.
+    + destruct gf; [discriminate|]. intros [= <- <-]. reflexivity.
+  - intros st'. cbn [cache_step]. destruct (c_cached st) as [w|]; [discriminate|].
+    destruct gf; [|discriminate]. intros [= <-]. reflexivity.
+  - subst ro. reflexivity.
+  - subst ro. reflexivity.
+  - intros -> st'. cbn [cache_step]. destruct (c_cached st); [|discriminate]. intros [= <-]. reflexivity.
 Qed.
